@@ -385,4 +385,22 @@ def run(ctx: Ctx, tier: str) -> Result:
         res.ok("C15.THREAD", {"per instance threading.local store": local_store})
     elif not class_level and not ident_keyed:
         res.fail(Finding("C15.THREAD", TL, "<threading.local()>", tl.module.relpath, "the per-thread store is not a per-instance threading.local"))
+    from .common import borrow
+    borrow(ctx, res, tier, "c20", ("C20.ISO",), "C15.ISOLATE", "a failing result of the same hit does not keep the deferred work of the others from being registered / completed")
+    # ThreadLocal answers per-thread questions from the thread's own store only: no other instance field is written after
+    # construction (such a field is shared by all threads: one thread clearing it hides the pending work of the others)
+    tlc = p.cls("deep.thread_local.ThreadLocal")
+    shared_ = []
+    for (cq, attr), lst_ in sorted(t._attr_store_index().items()):
+        if cq != tlc.qname:
+            continue
+        for sf, v, _ in lst_:
+            if sf.name != "__init__":
+                shared_.append((sf, v, attr))
+    for sf, v, attr in shared_:
+        res.fail(Finding("C15.THREAD", sf.qname, paths.stmt_of(p, v) if v is not None else attr, sf.loc(v) if v is not None else sf.loc(),
+                         "ThreadLocal.%s is an instance field written by %s: it is shared by all threads, so one thread changes what another thread sees "
+                         "(pending spans / captures of the other thread are skipped or completed late)" % (attr, sf.name)))
+    if not shared_:
+        res.ok("C15.THREAD", {"ThreadLocal keeps no cross-thread state besides its store": True})
     return res
